@@ -6,7 +6,7 @@ from vf import gen, harness, refdec, synth, treecheck
 ID = "C16"
 LEVEL = "exploration"
 RULE = ("seeded volume directory files: every text field of the volume descriptor and text record with printable-ASCII content of "
-        "every width (one character, full width, inner blanks, quotes; first and last character non-blank; left/right/centred "
+        "every width (entirely blank, one character, full width, inner blanks, quotes; first and last character non-blank; left/right/centred "
         "placement), all valid creation timestamps incl. leap days and hundredths, 0..16 file-pointer records with random content "
         "in between, spare areas blank; opened through open_alos2. evaluations = root attributes compared; distinct = distinct "
         "(file-pointer count, timestamp class, fs) signatures plus text classes")
@@ -31,6 +31,13 @@ def run_case(i, tier, seed):
             for f in synth.fields(rec):
                 if f["kind"] == "A_str" and not synth.is_spare(f) and f["name"] in vol[key] and (rec, f["name"]) not in gen.CONSTRAINED:
                     vol[key][f["name"]] = gen.str_text(rng, f["width"], "full")[0]
+    blanked = []
+    if i % 4 == 1:  # a field that is entirely padding surfaces as the empty string
+        for rec, key in (("vd", "vd"), ("txt", "txt")):
+            for f in synth.fields(rec):
+                if f["kind"] == "A_str" and not gen.is_padding(f) and (rec, f["name"]) not in gen.CONSTRAINED and rng.random() < 0.3:
+                    vol[key][f["name"]] = None
+                    blanked.append(f["name"])
     files, info = gen.simple_product(seed=i, level=["1.1", "1.5"][i % 2], lines=2, pixels=2, volume=vol)
     kind = ["memory", "vfs", "local"][i % 3]
     root = harness.unique_root(kind)
@@ -46,6 +53,6 @@ def run_case(i, tier, seed):
     finally:
         synth.uninstall(files, root, kind)
     violations = [{"what": p, "detail": {"n_fp": n_fp, "instant": inst}} for p in problems[:6]]
-    sig = [f"fp:{n_fp}|t:{icls}|{kind}"] + [f"class:{c}" for c in classes]
+    sig = [f"fp:{n_fp}|t:{icls}|{kind}|blank:{min(len(blanked), 3)}"] + [f"class:{c}" for c in classes]
     return {"sig": sig, "evals": n, "violations": violations, "obs": {"products": 1, "attributes_compared": n},
             "sample": {"file_pointer_records": n_fp, "creation_instant": inst, "fs": kind}, "nontrivial": n > 0}
